@@ -76,6 +76,10 @@ func sessionOptsFor(batch string) SessionOpts {
 		return SessionOpts{MaxCallers: 1, MaxCalls: 4, SerialOnly: true, Signals: true}
 	case "c06.mixed", "c06.sweep", "c06.race":
 		return SessionOpts{MaxCallers: 3, MaxCalls: 3, Signals: true, BadInputs: true, UnknownStep: true, SlowSteps: true, CloseEarly: true, DupRunIDs: true, Latency: true}
+	case "c06.blank":
+		// some calls name no step: the server's answer carries no run ID and the client fails every call in flight
+		// with it (so transparency, C05, is not judged on these sessions; every call must still return once)
+		return SessionOpts{MaxCallers: 3, MaxCalls: 3, Signals: true, BadInputs: true, UnknownStep: true, SlowSteps: true, CloseEarly: true, DupRunIDs: true, Latency: true, BlankStep: true}
 	case "c05.basic":
 		return SessionOpts{MaxCallers: 4, MaxCalls: 3, BadInputs: true, UnknownStep: true, BigPayloads: true, RichSchemas: true, SlowSteps: true, Latency: true, DupRunIDs: true}
 	case "c05.signals":
@@ -167,11 +171,17 @@ func (sessionEngine) Run(t *testing.T, batch string, tape *rt.Tape, runIdx uint6
 
 func runSessionPlan(t *testing.T, plan *SessionPlan, tape *rt.Tape, strat rt.Strategy, stratName string, sample map[string]any, trace func(string), after func(rt.Outcome), rec *RunRecord) RunRecord {
 	if why := describable(plan.Plugin); why != "" {
-		if plan.Features["c09"] && !strings.HasPrefix(why, "meta-schema: ") {
-			// the description was accepted by the meta-schema but the schema rebuilt from it is unusable (links,
-			// roots, defaults): that is the hello clause of C09 itself, not a premise
+		if plan.Features["c09"] {
+			// The generator only produces plugin schemas the unchanged SDK can describe and rebuild (shapes it cannot -
+			// negative integer bounds, enum-keyed maps, nil enum display values - are avoided at the source). A plugin
+			// that cannot describe itself, or whose description cannot be rebuilt, can never send a usable hello
+			// message: that is the hello clause of C09 itself, not a premise.
+			sig := "own-description-not-rebuildable: "
+			if strings.HasPrefix(why, "meta-schema: ") {
+				sig = "own-description-rejected-by-meta-schema: "
+			}
 			rec.Outcome = "violation"
-			rec.Violations = append(rec.Violations, Violation{"C09", "mismatch", "own-description-not-rebuildable: " + stripVolatile(why), "the plugin's own self-description (what the hello message carries) cannot be rebuilt: " + why})
+			rec.Violations = append(rec.Violations, Violation{"C09", "mismatch", sig + stripVolatile(strings.TrimPrefix(why, "meta-schema: ")), "the plugin's own self-description (what the hello message carries) cannot be produced or rebuilt: " + why})
 			rec.SchedSig = fmt.Sprintf("%x", fnvString(why))
 			return *rec
 		}
